@@ -320,7 +320,7 @@ def scenarios(rng, thorough):
     # published tokens decrypted by the implementation; published keys encrypted by it
     for vi, v in enumerate(VECTORS):
         ec_tok = 'pcode' in v
-        decs = decs_for(v['pw'], 'bitcoin', wrong=vi % 4 == 0) + ([['bip38_decrypt', v['pw'], 'bitcoin']] if ec_tok else [])
+        decs = decs_for(v['pw'], 'bitcoin', wrong=vi == 0) + ([['bip38_decrypt', v['pw'], 'bitcoin']] if ec_tok else [])
         nonec.append({'priv': v['priv'].lower(), 'comp': v['comp'], 'net': 'bitcoin', 'pw': v['pw'],
                       'enc_route': None if ec_tok else 'Key', 'tok': v['tok'], 'decs': decs, 'origin': 'published vector'})
     # keys x compression x networks x passphrases
@@ -349,7 +349,7 @@ def scenarios(rng, thorough):
         for comp in ((True, False) if thorough else (True,)):
             route = 'Key' if (j % 5 or isinstance(pw, dict)) else 'HDKey-segwit'
             decs = [['Key', pw, 'bitcoin']]
-            decs += [['Key', c, 'bitcoin', tag] for c, tag in (confusables if thorough else confusables[:2 if j < 9 else 1])]
+            decs += [['Key', c, 'bitcoin', tag] for c, tag in (confusables if thorough else confusables[:2 if j < 6 else 1])]
             decs += [['Key', e, 'bitcoin'] for e in (equivalents if thorough else equivalents[:1])]
             nonec.append({'priv': K_A.lower(), 'comp': comp, 'net': 'bitcoin', 'pw': pw, 'enc_route': route, 'tok': None, 'decs': decs,
                           'origin': 'generated'})
@@ -382,7 +382,7 @@ def scenarios(rng, thorough):
                    'comp': j % 2 == 0, 'net': net, 'decs': decs})
     # freshness histories
     ops = ['intermediate', 'intermediate-lot', 'new', 'key', 'hdkey']
-    for t in range(24 if thorough else 6):
+    for t in range(24 if thorough else 5):
         calls = []
         for _ in range(rng.randrange(6, 11) if thorough else rng.randrange(3, 7)):
             op = rng.choice(ops[:3] if rng.random() < 0.7 else ops)
